@@ -11,6 +11,9 @@ import (
 
 func main() {
 	args := mon.ParseArgs()
+	if args.Rest["mode"] == "names" {
+		cacheNamesMain(args) // C10, C11
+	}
 	switch args.Prop {
 	case "C17":
 		configMain(args)
